@@ -170,6 +170,28 @@ def run_check(prop, tier, seed):
     acts = {}
     rp = replay.Replayer()
     for inst in insts:
+        if inst.get("kind") == "b2":      # executions recorded from the code, validated by TLC against spec/Trace.tla
+            from harness import b2
+            try:
+                mms, stats, nt, ne = b2.validate(seed, inst["traces"], inst["length"], inst.get("family", "MC"),
+                                                 nprimes=inst.get("nprimes", 8))
+            except (tlcrun.TlcError, decode.DecodeError) as e:
+                print(f"MACHINERY-ERROR property={prop} B2 trace validation: {e}")
+                return 2
+            all_stats.append(stats)
+            n_replayed += nt
+            rp.count("b2_traces_recorded_from_code", nt)
+            rp.count("b2_events_validated", ne)
+            rp.calls += ne
+            samples.append({"instance": "B2 recorded trace", "events": nt and ne})
+            for mm, b in mms:
+                sig = signature(mm)
+                if sig not in mismatches:
+                    mismatches[sig] = (mm, b, 1)
+                else:
+                    m0, b0, c = mismatches[sig]
+                    mismatches[sig] = (m0, b0, c + 1)
+            continue
         try:
             behs, stats = explore(inst, seed, tier)
         except (tlcrun.TlcError, decode.DecodeError) as e:
@@ -229,7 +251,7 @@ def finalize(prop, tier, seed, t0, spec, insts, all_stats, mismatches, n_replaye
         "rule": "one evaluation = one public library call replayed from a TLC behaviour; a behaviour is non-trivial "
                 "if some object in it has more than one component or dimension > 1; distinct = distinct sequence of "
                 "(action, plain arguments)",
-        "exhaustive": all(not i.get("simulate") for i in insts),
+        "exhaustive": all(not i.get("simulate") and not i.get("sample_mod") and i.get("kind") != "b2" for i in insts),
         "instances": all_stats,
         "actions": acts,
         "counters": counters,
